@@ -138,3 +138,25 @@ Theorem C19_http_client_keeps_contract : forall reuse (polls : list hpoll_item) 
     Forall contract_ev (flat_map (evs_of_act c) (hrun_acts reuse polls)).
 Proof. exact http_client_contract. Qed.
 Print Assumptions C19_http_client_keeps_contract.
+
+(* the reply carried by a "connection lost" result (SmtpRelayClient._get_error_reply over the
+   per-connection Client.last_error): it was issued during the SAME message's exchange, or it is the
+   client's synthetic 421 - for every sequence of replies read on a connection in which nothing
+   follows a failed read, an error reply is followed by a read of the same message (RSET after a
+   failed transaction, cf. C19_reset_after_failure) and a 421 is followed by the loss of the
+   connection.  (The replies inside all other results are the Reply objects of the message's own
+   commands by construction of _deliver.) *)
+Theorem C19_lost_result_reply_is_own : forall tr,
+    wf_reads tr = true ->
+    forall m src, In (m, src) (lost_sources error_source None tr) -> src = None \/ src = Some m.
+Proof. exact lost_result_source_is_own. Qed.
+Print Assumptions C19_lost_result_reply_is_own.
+
+(* ... and the 421 test is needed: passing on ANY 4xx last_error hands message 1 the reply that
+   deferred a recipient of message 0 *)
+Theorem C19_only_a_421_may_be_passed_on :
+  exists tr, wf_reads tr = true /\
+             lost_sources error_source_any4xx None tr = [(1, Some 0)] /\
+             lost_sources error_source None tr = [(1, None)].
+Proof. exact any_4xx_is_foreign. Qed.
+Print Assumptions C19_only_a_421_may_be_passed_on.
